@@ -272,6 +272,14 @@ class World:
             except Exception:
                 return "rej"
         elif k == "M":
+            if len(op) > 3 and op[3] == "F":
+                # a library call on OTHER, fresh objects that fails half-way (a cyclic relation handed to a DAG
+                # constructor, ...): the model sees an event that calls nothing; process-wide state must not leak
+                from props._store_util import failing_library_call
+                try:
+                    failing_library_call(op[4])
+                except Exception:
+                    pass
             objs = [self.member(m) for m in op[2]]
             if op[1] in self.pool:
                 self.pool[op[1]][:] = objs
@@ -1124,7 +1132,19 @@ def gen_histories(rng, tier, fault_rate=0.25, asrt=1, exhaustive=True):
     for _ in range(nrand // 10):   # hostile stream: mostly malformed arguments
         d = gen_random_history(rng, fault_rate, nmin=2, nmax=5, maxops=12, wild=0.7, asrt=asrt)
         out.append((d, ("rand-wild", "n=%d" % d["n"])))
-    return out
+    # failing library calls between the operations of some random histories (own PRNG: the histories stay what they were)
+    r2 = random.Random(7919 + asrt)
+    res = []
+    for d, t in out:
+        if t and t[0] == "rand" and d["ops"] and r2.random() < 0.2:
+            ops = list(d["ops"])
+            for _ in range(r2.choice([1, 1, 2])):
+                v = r2.randrange(7)
+                ops.insert(r2.randrange(len(ops) + 1), ["M", 900 + v, [], "F", v])
+            d = dict(d, ops=ops)
+            t = tuple(t) + ("failing-library-call",)
+        res.append((d, t))
+    return res
 
 
 def _distinct_names(d) -> bool:
